@@ -57,6 +57,14 @@ func cmdRand(args []string) {
 		for _, a := range argvs {
 			id++
 			c := gh.Case{Ev: "case", Def: defID, ID: *idBase + id, Argv: a, Disp: p.Disp}
+			if !p.Comp && r.Float64() < p.Again {
+				// history case: some other argument list of the block was parsed on the same object before
+				c.HasPre = true
+				c.Pre = argvs[r.Intn(len(argvs))]
+				if r.Intn(3) == 0 {
+					c.Pre = []gh.Tok{}
+				}
+			}
 			if p.Comp {
 				c.Comp = []string{"bash", "zsh"}[r.Intn(2)]
 			}
